@@ -90,7 +90,10 @@ _EXTRA2 = {
 for _p, _t in _EXTRA2.items():
     CHECKS[_p] = dict(CHECKS[_p]); CHECKS[_p]['text'] = CHECKS[_p]['text'] + _t
 # thorough tier only: a Kani/CBMC harness re-decides one obligation of these properties on the compiled code (second engine)
-for _p, _t in (('C09', ' Thorough tier adds C09.k: Kani/CBMC harness on SwitchboardPullPriceFeed::load_checked with the REAL byte-level parsing of a symbolic account.'),
+for _p, _t in (('C08', ' Thorough tier adds C08.k: the signer-authorisation truth table decided by Kani/CBMC on the compiled code.'),
+               ('C12', ' Thorough tier adds C12.k: the daily deleverage window decided by Kani/CBMC on the compiled code.'),
+               ('C14', ' Thorough tier adds C14.k: the bank-state table decided by Kani/CBMC on the compiled code.'),
+               ('C09', ' Thorough tier adds C09.k: Kani/CBMC harness on SwitchboardPullPriceFeed::load_checked with the REAL byte-level parsing of a symbolic account.'),
                ('C15', ' Thorough tier adds C15.k: the same inductive step decided by Kani/CBMC on the compiled code.'),
                ('C16', ' Thorough tier adds C16.k: validate_asset_tags over 16 symbolic slots decided by Kani/CBMC on the compiled code.')):
     CHECKS[_p] = dict(CHECKS[_p]); CHECKS[_p]['text'] += _t; CHECKS[_p]['engine'] = 'mirsym (+ kani in the thorough tier)'
